@@ -240,6 +240,7 @@ FIX_TRIGGERS = {
     "md038": ["with ` spaced code ` inside"],
     "md039": ["with [ spaced link ](/url) inside"],
     "md001": ["", "#### deep", "", "text"],
+    "md001chain": ["", "### skips one", "", "text", "", "#### follows", "", "##### and deeper", "", "more"],
     "md027": ["", ">  wide quote", ">  again"],
     "md022": ["## Heading", "text"],
     "md032": ["- tight list", "text after"],
